@@ -71,6 +71,14 @@ def cases_for(rng, q):
             ops += ["poll"] * 8 + ["peer 1 5a", "poll", "poll"] + settle()
             cases.append(("case settled", ops))
     cases += close_cases()
+    # a message that does not fit the caller's buffer arrives while application writes are queued or in flight: the read fails,
+    # the stream sends its own Close (going away) once, behind what was queued before, and nothing is repeated on the wire
+    for pre in ([], ["write 100 3"], ["write 100 3", "write 101 300"], ["peer 9 41", "write 100 5"], ["chain 100 101 2", "write 100 4"]):
+        for post in ([], ["write 110 2"], ["close 200"]):
+            ops = ["readb 1 4"] + pre + ["peer 2 4142434445464748"] + ["poll"] + post + ["poll"] * 8 + ["frames"]
+            cases.append(("case settled", ops))
+            ops = ["readb 1 4", "poll"] + pre + ["peer 2 4142434445464748"] + ["poll"] + post + ["poll"] * 8 + ["frames"]
+            cases.append(("case settled", ops))
     for _ in range(20 if q else 400):
         ops = ["read 1"]
         rid, wid = 1, 100
